@@ -3193,7 +3193,7 @@ class Parameters:
                             ran.append(method)
                     with _batch_call_watchers(self_.self_or_cls, enable=watcher.queued, run=False):
                         self_._execute_watcher(watcher, events)
-            except Exception:
+            except BaseException:
                 # a watcher raised: what queued callbacks of this round
                 # assigned is still announced before the error propagates
                 self_._batch_call_watchers()
